@@ -14,7 +14,7 @@ use super::profiles::profile84::Profile84;
 use super::rpu_data_header::RpuDataHeader;
 use super::rpu_data_mapping::{DoviNlqMethod, RpuDataMapping};
 use super::rpu_data_nlq::{DoviELType, RpuDataNlq};
-use super::vdr_dm_data::{VdrDmData, vdr_dm_data_payload};
+use super::vdr_dm_data::{DM_DATA_PAYLOAD2_MIN_BITS, VdrDmData, vdr_dm_data_payload};
 use super::{ConversionMode, compute_crc32};
 
 use crate::av1::{
@@ -279,6 +279,16 @@ impl DoviRpu {
         writer.byte_align()?;
 
         if let Some(remaining) = &self.remaining {
+            // Without CM v4.0 metadata the parser reads this much trailing data as a CM v4.0 payload
+            if let Some(vdr_dm_data) = &self.vdr_dm_data {
+                ensure!(
+                    vdr_dm_data.cmv40_metadata.is_some()
+                        || (remaining.len() as u64) + CRC32_TERMINATOR_BITS
+                            < DM_DATA_PAYLOAD2_MIN_BITS,
+                    "Cannot write data before the CRC32 without CM v4.0 metadata"
+                );
+            }
+
             for b in remaining {
                 writer.write(*b)?;
             }
